@@ -411,13 +411,18 @@ func nestedMarshal(enc *jsontext.Encoder, tr *Trace, v any, opts []json.Options)
 			inObject = true
 		}
 	}
-	err := json.MarshalEncode(enc, v, opts...)
-	if before != during {
+	if before != during { // recorded BEFORE the call (it may panic inside) and completed when it returns or unwinds
 		tr.DupToggled = true
+		if inObject {
+			tr.DupDesync = true
+		}
+		defer func() {
+			if enc.StackDepth() > d0 {
+				tr.DupDesync = true
+			}
+		}()
 	}
-	if before != during && (inObject || enc.StackDepth() > d0) {
-		tr.DupDesync = true
-	}
+	err := json.MarshalEncode(enc, v, opts...)
 	return err
 }
 
